@@ -104,6 +104,86 @@ theorem listS_intern (vs : List Str) (st st' : St F) (h : (listS internS vs st).
   have := listS_resolves internS_resolves vs st st' h
   simpa using this
 
+/-! ### look-up by name, stored nodes -/
+
+theorem findName_append_left (s : Str) (l more : List Str) (i : Nat) (h : findName s l = some i) :
+    findName s (l ++ more) = some i := by
+  induction l generalizing i with
+  | nil => simp [findName] at h
+  | cons x xs ih =>
+    simp only [List.cons_append, findName] at h ⊢
+    split
+    · next hx => simpa [hx] using h
+    · next hx =>
+      simp only [hx, if_false] at h
+      cases hf : findName s xs with
+      | none => simp [hf] at h
+      | some j => simp [hf] at h; subst h; simp [ih j hf]
+
+theorem findName_self (names : List Str) (n : Str) :
+    findName n (internName names n).2 = some (internName names n).1 := by
+  unfold internName
+  cases hf : findName n names with
+  | some i => simpa using hf
+  | none =>
+    simp only
+    induction names with
+    | nil => simp [findName]
+    | cons x xs ih =>
+      simp only [findName] at hf
+      split at hf
+      · simp at hf
+      · next hx =>
+        cases hf' : findName n xs with
+        | some j => simp [hf'] at hf
+        | none => simp [findName, hx, ih hf']
+
+/-- `id_by_name` finds the id `get_or_intern` handed out, in every later builder state -/
+theorem idByName_of_le (n : Str) (st st' : St F) (h : (internS n st).2.le st') :
+    findName n st'.names = some (internS n st).1 := by
+  obtain ⟨more, e⟩ := h
+  rw [e]
+  exact findName_append_left n _ more _ (by simpa [internS] using findName_self st.names n)
+
+/-- `node_opt` after `store_node` -/
+theorem storeNodeS_found (pr : Profile) (id : Nat) (d : NodeData F) (st st' : St F)
+    (h : storeNodeS pr id d st = .ok st') :
+    st'.nodes.find? (fun x => x.1 == id) = some (id, d) := by
+  unfold storeNodeS at h
+  split at h
+  · cases h
+  · cases h
+    simp only [List.find?_append]
+    have : (st.nodes.filter fun x => x.1 != id).find? (fun x => x.1 == id) = none := by
+      simp [List.find?_eq_none]
+    simp [this]
+
+/-- … and every other id keeps its node -/
+theorem storeNodeS_other (pr : Profile) (id j : Nat) (d : NodeData F) (st st' : St F)
+    (h : storeNodeS pr id d st = .ok st') (hj : j ≠ id) :
+    st'.nodes.find? (fun x => x.1 == j) = st.nodes.find? (fun x => x.1 == j) := by
+  unfold storeNodeS at h
+  split at h
+  · cases h
+  · cases h
+    simp only [List.find?_append]
+    have h1 : (st.nodes.filter fun x => x.1 != id).find? (fun x => x.1 == j) =
+        st.nodes.find? (fun x => x.1 == j) := by
+      induction st.nodes with
+      | nil => rfl
+      | cons x xs ih =>
+        by_cases hx : x.1 = id
+        · have hne : ¬ x.1 = j := by intro hh; exact hj (hh ▸ hx)
+          rw [List.filter_cons_of_neg (by simp [hx]), ih, List.find?_cons_of_neg (by simp [hne])]
+        · rw [List.filter_cons_of_pos (by simp [hx])]
+          by_cases hxj : x.1 = j
+          · rw [List.find?_cons_of_pos (by simp [hxj]), List.find?_cons_of_pos (by simp [hxj])]
+          · rw [List.find?_cons_of_neg (by simp [hxj]), List.find?_cons_of_neg (by simp [hxj]), ih]
+    rw [h1]
+    cases st.nodes.find? (fun x => x.1 == j) with
+    | some v => rfl
+    | none => simp [Ne.symm hj]
+
 /-! ### views of the normal forms -/
 
 theorem specAttr_view (m : AttrM) (st st' : St F) (h : (specAttr m st).2.le st') :
@@ -243,5 +323,97 @@ theorem maskedOfEntries_names (reg : RegBase) (en : Endianness) (es : List Struc
   induction es generalizing st with
   | nil => rfl
   | cons e es ih => simp [maskedOfEntries, ih, invalS]
+
+
+/-! ### invalidator registrations -/
+
+/-- `f` leaves the registered invalidators alone -/
+def InvalsSame {α β : Type} (f : α → St F → β × St F) : Prop := ∀ a st, (f a st).2.invals = st.invals
+
+theorem optS_invals {α β : Type} {f : α → St F → β × St F} (hf : InvalsSame f) :
+    InvalsSame (optS f) := by
+  intro v st
+  cases v with
+  | none => rfl
+  | some a => exact hf a st
+
+theorem listS_invals {α β : Type} {f : α → St F → β × St F} (hf : InvalsSame f) :
+    InvalsSame (listS f) := by
+  intro vs st
+  induction vs generalizing st with
+  | nil => rfl
+  | cons a as ih => simp [listS, ih, hf a st]
+
+theorem internS_invals : InvalsSame (F := F) internS := fun _ _ => rfl
+
+theorem specAttr_invals : InvalsSame (F := F) specAttr := fun _ _ => rfl
+
+theorem specElem_invals (inv : List Str) : InvalsSame (F := F) (fun m => specElem m inv) := by
+  intro m st
+  simp [specElem, optS_invals internS_invals _ _, listS_invals internS_invals _ _]
+
+theorem irIntS_invals : InvalsSame (F := F) irIntS := by
+  intro x st; cases x <;> rfl
+
+theorem addrS_invals : InvalsSame (F := F) addrS := by
+  intro x st
+  match x with
+  | .address _ => rfl
+  | .pAddress _ => rfl
+  | .pIndex none _ => rfl
+  | .pIndex (some (.inl _)) _ => rfl
+  | .pIndex (some (.inr _)) _ => rfl
+
+theorem specReg_invals : InvalsSame (F := F) specReg := by
+  intro m st
+  simp [specReg, listS_invals internS_invals _ _, internS_invals _ _, irIntS_invals _ _,
+    listS_invals addrS_invals _ _, specElem_invals [] _ _]
+
+theorem specEntry_invals : InvalsSame (F := F) specEntry := by
+  intro e st
+  simp [specEntry, listS_invals internS_invals _ _, specElem_invals e.pInvalidators _ _,
+    specAttr_invals _ _]
+
+/-- the registrations of one merged / parsed node: `(invalidator, node)` per invalidator -/
+def regsOf (n : MaskedIntRegNode) : List (Nat × Nat) := n.reg.pInvalidators.map fun i => (i, n.attr.id)
+
+def regsOfV (v : MaskedV) : List (Str × Str) := v.reg.pInvalidators.map fun i => (i, v.attr.name)
+
+/-- registrations read through an interner -/
+def regsV (st : St F) (l : List (Nat × Nat)) : List (Str × Str) :=
+  l.map fun p => (nameOf st p.1, nameOf st p.2)
+
+theorem regsV_regsOf (st : St F) (ns : List MaskedIntRegNode) :
+    regsV st (ns.flatMap regsOf) = (ns.map (MaskedIntRegNode.view st)).flatMap regsOfV := by
+  induction ns with
+  | nil => rfl
+  | cons n ns ih =>
+    simp only [List.flatMap_cons, List.map_cons, regsV, List.map_append] at ih ⊢
+    rw [ih]
+    simp [regsOf, regsOfV, MaskedIntRegNode.view, RegBase.view, AttrBase.view, List.map_map,
+      Function.comp_def]
+
+theorem specMasked_invals (m : MaskedM) (st : St F) :
+    (specMasked m st).2.invals = st.invals ++ regsOf (specMasked m st).1 := by
+  simp [specMasked, invalS, regsOf, listS_invals internS_invals _ _, specReg_invals _ _,
+    specAttr_invals _ _]
+
+theorem listS_specMasked_invals (ms : List MaskedM) (st : St F) :
+    (listS specMasked ms st).2.invals = st.invals ++ (listS specMasked ms st).1.flatMap regsOf := by
+  induction ms generalizing st with
+  | nil => simp [listS]
+  | cons m ms ih => simp [listS, ih, specMasked_invals, List.append_assoc]
+
+theorem maskedOfEntries_invals (reg : RegBase) (en : Endianness) (es : List StructEntryNode)
+    (st : St F) :
+    (maskedOfEntries reg en es st).2.invals =
+      st.invals ++ (maskedOfEntries reg en es st).1.flatMap regsOf := by
+  induction es generalizing st with
+  | nil => simp [maskedOfEntries]
+  | cons e es ih => simp [maskedOfEntries, ih, invalS, regsOf, List.append_assoc]
+
+theorem specStruct_invals (s : StructM) (st : St F) :
+    (specStruct s st).2.invals = st.invals ++ (specStruct s st).1.flatMap regsOf := by
+  simp [specStruct, maskedOfEntries_invals, listS_invals specEntry_invals _ _, specReg_invals _ _]
 
 end CamVerif.XmlParse
